@@ -234,11 +234,22 @@ class Driver:
             n += 1
         return n
 
-    def fair_round(self):
+    def fair_round(self, reap=False):
         for n in self.c.nodes:
             if self.c.nodes[n].alive:
                 self.tick(n)
                 self.drain()
+        if reap:
+            self.reap()
+
+    def reap(self):
+        """Prompt processes: every process that was sent a signal and is STOPPING dies now."""
+        for n, node in self.c.nodes.items():
+            if node.alive:
+                for ns, proc in list(node.processes()):
+                    if proc.state == 40 and proc.pid:
+                        self.env('killed', n, ns)
+                        self.drain()
 
     def replay(self, schedule):
         for s in schedule:
